@@ -405,3 +405,5 @@ def check(case: dict[str, Any], rec: Any) -> None:
 
 
 FINDINGS: dict[str, Any] = {}
+
+LEVEL_NOTE += ' Rounds 13-14: typing-cache churn between subscriptions; messages and start times in non-UTC zones.'
